@@ -5,7 +5,7 @@
 #include "sdo_common.h"
 
 #define MAXEV 900
-static uint8_t EV[MAXEV][8]; static uint8_t EVSRV[MAXEV]; static int NEV;
+static uint8_t EV[MAXEV][8]; static uint8_t EVSRV[MAXEV], EVDLC[MAXEV]; static int NEV;
 
 static void add_s(int srv, uint8_t cmd, uint16_t idx, uint8_t sub, uint32_t v)
 {
@@ -13,7 +13,7 @@ static void add_s(int srv, uint8_t cmd, uint16_t idx, uint8_t sub, uint32_t v)
     w_put32(f + 4, v);
     for (int i = 0; i < NEV; i++) if (EVSRV[i] == srv && !memcmp(EV[i], f, 8)) return;
     if (NEV >= MAXEV) { fprintf(stderr, "c04: alphabet too large\n"); exit(2); }
-    memcpy(EV[NEV], f, 8); EVSRV[NEV] = (uint8_t)srv; NEV++;
+    memcpy(EV[NEV], f, 8); EVSRV[NEV] = (uint8_t)srv; EVDLC[NEV] = 8; NEV++;
 }
 static void add(uint8_t cmd, uint16_t idx, uint8_t sub, uint32_t v) { add_s(0, cmd, idx, sub, v); }
 
@@ -59,6 +59,14 @@ static void build_alphabet(void)
         static const uint8_t ACK[] = { 0, 1, 2, 3, 4, CO_SDO_BUF_SEG, CO_SDO_BUF_SEG + 1, 0xFF }, BS[] = { 0, 1, 2, CO_SDO_BUF_SEG, 127, 128 };
         for (unsigned a = 0; a < sizeof ACK; a++) for (unsigned b = 0; b < sizeof BS; b++) add(0xA2, (uint16_t)(ACK[a] | (BS[b] << 8)), 0, 0);
     }
+    if (mc_opt("dlc", 0)) {     /* C01: truncated frames (only the safety monitor judges them) */
+        static const uint8_t C[] = { 0x40, 0x23, 0x21, 0x00, 0x01, 0x60, 0xA0, 0xA3, 0xA2, 0xC2, 0xC1, 0x80, 0x81 }, D[] = { 0, 1, 4, 7 };
+        for (unsigned c = 0; c < sizeof C; c++) for (unsigned k = 0; k < sizeof D; k++) {
+            if (NEV >= MAXEV) break;
+            uint8_t f[8] = { C[c], 0x12, 0x20, 0x00, 30, 0, 0, 0 }; for (int i = D[k]; i < 8; i++) f[i] = 0;
+            memcpy(EV[NEV], f, 8); EVSRV[NEV] = 0; EVDLC[NEV] = D[k]; NEV++;
+        }
+    }
 #if CO_SSDO_N > 1
     add_s(1, 0x40, 0x2011, 0, 0); add_s(1, 0x40, 0x2001, 0, 0); add_s(1, 0x60, 0x5A5A, 0x5A, 0x5A5A5A5A); add_s(1, 0x70, 0x5A5A, 0x5A, 0x5A5A5A5A); add_s(1, 0x80, 0, 0, 0);
     add_s(1, 0x2B, 0x2001, 0, 9); add_s(1, 0x21, 0x2011, 0, SDO_DS1); add_s(1, 0x00, 0x5A5A, 0x5A, 0x5A5A5A5A); add_s(1, 0x10, 0x5A5A, 0x5A, 0x5A5A5A5A);
@@ -85,7 +93,7 @@ static int build(int cfg)
 static const char *ev_name(int e)
 {
     static char b[64];
-    snprintf(b, sizeof b, "s%d:%02X %02X%02X%02X %02X%02X%02X%02X", EVSRV[e], EV[e][0], EV[e][1], EV[e][2], EV[e][3], EV[e][4], EV[e][5], EV[e][6], EV[e][7]);
+    snprintf(b, sizeof b, "s%d%s:%02X %02X%02X%02X %02X%02X%02X%02X", EVSRV[e], EVDLC[e] == 8 ? "" : "(short DLC)", EV[e][0], EV[e][1], EV[e][2], EV[e][3], EV[e][4], EV[e][5], EV[e][6], EV[e][7]);
     return b;
 }
 
@@ -103,7 +111,8 @@ static int secondary(int e)
 static int step(int e)
 {
     if (EVSRV[e] == 0 && SM[0].st != S_IDLE && mc_opt("fewinit", 0) && secondary(e)) return MC_SKIP;
-    sdo_request(EVSRV[e], EV[e]);
+    if (EVDLC[e] != 8) { w_rx(&Node, SDO_RX[EVSRV[e]], EVDLC[e], EV[e]); SM[EVSRV[e]].st = S_UNSPEC; mc_steps++; }
+    else sdo_request(EVSRV[e], EV[e]);
     (void)CONodeGetErr(&Node);
     sdo_content_reset();
     return MC_OK;
